@@ -5,7 +5,9 @@ import Proofs.Lemmas.LowerStrings
 The recursion of `Proofs/Lemmas/LowerClass.lean` again, now carrying the strings: the CharSet of
 the specification `(chars, strs)` against the crate's `ClassSet (cps, alts)`:
 `cps` denotes `chars`, `alts` and `strs` have the same members, no string has length one (a
-one-character string is a character on both sides), and inside a negated class there are no strings.
+one-character string is a character on both sides), and a set whose `mayContainStrings` flag is
+clear has no strings (so a negated class, which the parser accepts only with the flag clear, is a
+plain bracket).
 -/
 namespace Regress.Lower
 
@@ -34,17 +36,13 @@ structure VSDen (A : ES.CharSet) (s : ClassSet) : Prop where
   srel : ∀ str, str ∈ A.strs ↔ str ∈ s.alts
   len1 : ∀ str ∈ s.alts, str.length ≠ 1
   scalar : ∀ str ∈ s.alts, Utf8.AllScalar str
+  ns : s.mayContainStrings = false → s.alts = []
 
 def OpSDen (A : ES.CharSet) : Operand → Prop
   | .char c => c ≤ 0x10FFFF ∧ (∀ x, A.chars x = (x == c)) ∧ A.strs = []
   | .esc cps => Den A.chars cps ∧ A.strs = []
   | .cls s => VSDen A s
   | .strs _ => False
-
-/-- the operand carries no strings -/
-def opNoStr : Operand → Prop
-  | .cls s => s.alts = []
-  | _ => True
 
 theorem mem_union_strs (A B : ES.CharSet) (str : List Nat) :
     str ∈ (A.union B).strs ↔ str ∈ A.strs ∨ str ∈ B.strs := by
@@ -62,7 +60,7 @@ theorem mem_union_strs (A B : ES.CharSet) (str : List Nat) :
 
 theorem vsden_empty : VSDen ES.CharSet.empty ({} : ClassSet) :=
   ⟨den_empty, fun _ => by simp [ES.CharSet.empty], fun _ h => absurd h (by simp),
-    fun _ h => absurd h (by simp)⟩
+    fun _ h => absurd h (by simp), fun _ => rfl⟩
 
 theorem opSDen_strs_of_not_cls {A : ES.CharSet} {op : Operand} (h : OpSDen A op) :
     (∀ s, op ≠ .cls s) → A.strs = [] := by
@@ -79,12 +77,14 @@ theorem vsden_unionOperand {A B : ES.CharSet} {s : ClassSet} {op : Operand} (hs 
   | char c =>
     obtain ⟨hc, hb, hbs⟩ := ho
     exact ⟨(den_addOne hs.den hc).congr (fun x _ => by simp [ES.CharSet.union, hb]),
-      fun str => by rw [mem_union_strs, hbs]; simpa [ClassSet.unionOperand] using hs.srel str, hs.len1, hs.scalar⟩
+      fun str => by rw [mem_union_strs, hbs]; simpa [ClassSet.unionOperand] using hs.srel str, hs.len1, hs.scalar,
+      hs.ns⟩
   | esc cps =>
     exact ⟨(den_addSet hs.den ho.1).congr (fun x _ => by simp [ES.CharSet.union]),
-      fun str => by rw [mem_union_strs, ho.2]; simpa [ClassSet.unionOperand] using hs.srel str, hs.len1, hs.scalar⟩
+      fun str => by rw [mem_union_strs, ho.2]; simpa [ClassSet.unionOperand] using hs.srel str, hs.len1, hs.scalar,
+      hs.ns⟩
   | cls c =>
-    refine ⟨(den_addSet hs.den ho.den).congr (fun x _ => by simp [ES.CharSet.union]), fun str => ?_, ?_, ?_⟩
+    refine ⟨(den_addSet hs.den ho.den).congr (fun x _ => by simp [ES.CharSet.union]), fun str => ?_, ?_, ?_, ?_⟩
     · rw [mem_union_strs, hs.srel, ho.srel]; simp [ClassSet.unionOperand]
     · intro str h
       simp only [ClassSet.unionOperand, List.mem_append] at h
@@ -96,6 +96,9 @@ theorem vsden_unionOperand {A B : ES.CharSet} {s : ClassSet} {op : Operand} (hs 
       rcases h with h | h
       · exact hs.scalar str h
       · exact ho.scalar str h
+    · intro h
+      simp only [ClassSet.unionOperand, Bool.or_eq_false_iff] at h
+      simp [ClassSet.unionOperand, hs.ns h.1, ho.ns h.2]
   | strs _ => exact ho.elim
 
 theorem single?_none_of_len {a : List Nat} (h : a.length ≠ 1) : single? a = none := by
@@ -143,7 +146,8 @@ theorem vsden_intersectOperand {A B : ES.CharSet} {s : ClassSet} {op : Operand} 
       exact hs.len1 _ ha rfl
     refine ⟨?_, fun str => by simp [ES.CharSet.inter, hbs, ClassSet.intersectOperand, hfound],
       fun str h => by simp [ClassSet.intersectOperand, hfound] at h,
-      fun str h => by simp [ClassSet.intersectOperand, hfound] at h⟩
+      fun str h => by simp [ClassSet.intersectOperand, hfound] at h,
+      fun _ => by simp [ClassSet.intersectOperand, hfound]⟩
     simp only [ClassSet.intersectOperand]
     by_cases hcon : CPS.contains s.cps c = true
     · simp only [hcon, if_true]
@@ -164,16 +168,18 @@ theorem vsden_intersectOperand {A B : ES.CharSet} {s : ClassSet} {op : Operand} 
       · subst hx; simp [hm]
       · simp [hx]
   | esc cps =>
-    refine ⟨(den_intersect hs.den ho.1).congr (fun x _ => by simp [ES.CharSet.inter]), fun str => ?_, ?_, ?_⟩
+    refine ⟨(den_intersect hs.den ho.1).congr (fun x _ => by simp [ES.CharSet.inter]), fun str => ?_, ?_, ?_, ?_⟩
     · simp [ES.CharSet.inter, ho.2, ClassSet.intersectOperand, filter_singleSat_nil _ _ hs.len1]
     · intro str h
       simp [ClassSet.intersectOperand, filter_singleSat_nil _ _ hs.len1] at h
     · intro str h
       simp [ClassSet.intersectOperand, filter_singleSat_nil _ _ hs.len1] at h
+    · intro _
+      simp [ClassSet.intersectOperand, filter_singleSat_nil _ _ hs.len1]
   | cls c =>
     have h1 := collectSingles_no_singles c.alts s.cps ho.len1
     have h2 := filter_singleSat_nil s.alts (CPS.contains c.cps) hs.len1
-    refine ⟨?_, fun str => ?_, ?_, ?_⟩
+    refine ⟨?_, fun str => ?_, ?_, ?_, ?_⟩
     · simp only [ClassSet.intersectOperand, h1]
       exact (den_addSet (den_intersect hs.den ho.den) den_empty).congr (fun x _ => by simp [ES.CharSet.inter])
     · simp only [ES.CharSet.inter, ClassSet.intersectOperand, h2, List.append_nil, List.mem_filter,
@@ -184,6 +190,12 @@ theorem vsden_intersectOperand {A B : ES.CharSet} {s : ClassSet} {op : Operand} 
     · intro str h
       simp only [ClassSet.intersectOperand, h2, List.append_nil, List.mem_filter] at h
       exact hs.scalar str h.1
+    · intro h
+      simp only [ClassSet.intersectOperand, Bool.and_eq_false_iff] at h
+      simp only [ClassSet.intersectOperand, h2, List.append_nil]
+      rcases h with h | h
+      · rw [hs.ns h]; rfl
+      · rw [ho.ns h]; simp
   | strs _ => exact ho.elim
 
 theorem vsden_subtractOperand {A B : ES.CharSet} {s : ClassSet} {op : Operand} (hs : VSDen A s) (ho : OpSDen B op) :
@@ -192,7 +204,7 @@ theorem vsden_subtractOperand {A B : ES.CharSet} {s : ClassSet} {op : Operand} (
   | char c =>
     obtain ⟨hc, hb, hbs⟩ := ho
     refine ⟨(den_remove hs.den (den_single hc)).congr (fun x _ => by simp [ES.CharSet.sub, hb]), fun str => ?_,
-      ?_, ?_⟩
+      ?_, ?_, fun h => by rw [show (s.subtractOperand (.char c)).alts = s.alts.filter _ from rfl, hs.ns h]; rfl⟩
     · simp only [ES.CharSet.sub, hbs, ClassSet.subtractOperand, List.mem_filter, List.contains_nil,
         Bool.not_false, and_true, hs.srel, List.contains_cons, Bool.or_false, Bool.not_eq_true',
         beq_eq_false_iff_ne, ne_eq]
@@ -207,7 +219,8 @@ theorem vsden_subtractOperand {A B : ES.CharSet} {s : ClassSet} {op : Operand} (
       exact hs.scalar str h.1
   | esc cps =>
     have h2 := filter_singleSat_nil s.alts (CPS.contains cps) hs.len1
-    refine ⟨(den_remove hs.den ho.1).congr (fun x _ => by simp [ES.CharSet.sub]), fun str => ?_, ?_, ?_⟩
+    refine ⟨(den_remove hs.den ho.1).congr (fun x _ => by simp [ES.CharSet.sub]), fun str => ?_, ?_, ?_,
+      fun h => by rw [show (s.subtractOperand (.esc cps)).alts = s.alts.filter _ from rfl, hs.ns h]; rfl⟩
     · simp [ES.CharSet.sub, ho.2, ClassSet.subtractOperand, h2, hs.srel]
     · intro str h
       simp only [ClassSet.subtractOperand, h2, List.mem_filter] at h
@@ -218,7 +231,8 @@ theorem vsden_subtractOperand {A B : ES.CharSet} {s : ClassSet} {op : Operand} (
   | cls c =>
     have h1 := collectSingles_no_singles c.alts s.cps ho.len1
     have h2 := filter_singleSat_nil s.alts (CPS.contains c.cps) hs.len1
-    refine ⟨?_, fun str => ?_, ?_, ?_⟩
+    refine ⟨?_, fun str => ?_, ?_, ?_, fun h => by
+      rw [show (s.subtractOperand (.cls c)).alts = (s.alts.filter _).filter _ from rfl, hs.ns h]; rfl⟩
     · simp only [ClassSet.subtractOperand, h1]
       exact (den_remove (den_remove hs.den den_empty) ho.den).congr (fun x _ => by simp [ES.CharSet.sub])
     · simp only [ES.CharSet.sub, ClassSet.subtractOperand, h2, List.mem_filter, List.contains_nil,
@@ -236,13 +250,13 @@ theorem vsden_first {B : ES.CharSet} {op : Operand} (ho : OpSDen B op) :
     VSDen B (({} : ClassSet).unionOperand op) := by
   have := vsden_unionOperand vsden_empty ho
   exact ⟨this.den.congr (fun x _ => by simp [ES.CharSet.union, ES.CharSet.empty]),
-    fun str => by rw [← this.srel, mem_union_strs]; simp [ES.CharSet.empty], this.len1, this.scalar⟩
+    fun str => by rw [← this.srel, mem_union_strs]; simp [ES.CharSet.empty], this.len1, this.scalar, this.ns⟩
 
 theorem vsden_assoc {A B C : ES.CharSet} {r : ClassSet} (h : VSDen ((A.union B).union C) r) :
     VSDen (A.union (B.union C)) r :=
   ⟨h.den.congr (fun x _ => by simp [ES.CharSet.union, Bool.or_assoc]),
     fun str => by rw [← h.srel, mem_union_strs, mem_union_strs, mem_union_strs, mem_union_strs, or_assoc],
-    h.len1, h.scalar⟩
+    h.len1, h.scalar, h.ns⟩
 
 
 /-! ## `\q{…}` -/
@@ -253,16 +267,29 @@ theorem strOK_le {s : List Nat} (h : strOK s = true) {c : Nat} (hc : c ∈ s) : 
 theorem strOK_scalar {s : List Nat} (h : strOK s = true) : Utf8.AllScalar s :=
   fun c hc => List.all_eq_true.1 h c hc
 
-theorem classStringSet_den {rer : ES.RER} (hic : rer.ignoreCase = false) (neg : Bool) :
-    ∀ (strs : List (List Nat)) (acc set : ClassSet) (A : ES.CharSet), VSDen A acc →
-      strs.all strOK = true → classStringSet neg strs acc = .ok set →
-      VSDen (A.union (ES.classStringsCharSet rer strs)) set ∧ (neg = true → set.alts = acc.alts)
-  | [], acc, set, A, ha, _, hl => by
-    simp only [classStringSet, Except.ok.injEq] at hl; subst hl
-    exact ⟨⟨ha.den.congr (fun x _ => by simp [ES.CharSet.union, ES.classStringsCharSet, ES.CharSet.empty]),
+theorem ofString_long_chars {a : List Nat} (h : a.length ≠ 1) (x : Nat) :
+    (ES.CharSet.ofString a).chars x = false := by
+  match a, h with
+  | [], _ => simp [ES.CharSet.ofString]
+  | [_], h => exact absurd rfl h
+  | _ :: _ :: _, _ => simp [ES.CharSet.ofString]
+
+theorem ofString_long_strs {a : List Nat} (h : a.length ≠ 1) : (ES.CharSet.ofString a).strs = [a] := by
+  match a, h with
+  | [], _ => simp [ES.CharSet.ofString]
+  | [_], h => exact absurd rfl h
+  | _ :: _ :: _, _ => simp [ES.CharSet.ofString]
+
+theorem classStringSet_den {rer : ES.RER} (hic : rer.ignoreCase = false) :
+    ∀ (strs : List (List Nat)) (acc : ClassSet) (A : ES.CharSet), VSDen A acc →
+      strs.all strOK = true →
+      VSDen (A.union (ES.classStringsCharSet rer strs)) (classStringSet strs acc)
+  | [], acc, A, ha, _ => by
+    simp only [classStringSet]
+    exact ⟨ha.den.congr (fun x _ => by simp [ES.CharSet.union, ES.classStringsCharSet, ES.CharSet.empty]),
       fun str => by rw [mem_union_strs, ← ha.srel]; simp [ES.classStringsCharSet, ES.CharSet.empty],
-      ha.len1, ha.scalar⟩, fun _ => rfl⟩
-  | a :: rest, acc, set, A, ha, hok, hl => by
+      ha.len1, ha.scalar, ha.ns⟩
+  | a :: rest, acc, A, ha, hok => by
     simp only [List.all_cons, Bool.and_eq_true] at hok
     have hassoc : ∀ (B : ES.CharSet) (r : ClassSet),
         VSDen ((A.union B).union (ES.classStringsCharSet rer rest)) r →
@@ -272,11 +299,54 @@ theorem classStringSet_den {rer : ES.RER} (hic : rer.ignoreCase = false) (neg : 
       subst hB
       simpa [ES.classStringsCharSet] using vsden_assoc h
     have hoka := hok.1
+    -- a string that is not one character
+    have hlong : a.length ≠ 1 →
+        VSDen (A.union (ES.classStringsCharSet rer (a :: rest)))
+          (if !acc.alts.contains a then
+            classStringSet rest { acc with alts := acc.alts ++ [a], mayContainStrings := true }
+          else classStringSet rest { acc with mayContainStrings := true }) := by
+      intro hlen
+      have hB : ∀ x, (ES.maybeSimpleCaseFolding rer (ES.CharSet.ofString a)).chars x = false := by
+        intro x; rw [msf_noicase hic]; exact ofString_long_chars hlen x
+      have hBs : (ES.maybeSimpleCaseFolding rer (ES.CharSet.ofString a)).strs = [a] := by
+        rw [msf_noicase hic]; exact ofString_long_strs hlen
+      by_cases hcon : acc.alts.contains a = true
+      · simp only [hcon, Bool.not_true, Bool.false_eq_true, if_false]
+        have hstep : VSDen (A.union (ES.maybeSimpleCaseFolding rer (ES.CharSet.ofString a)))
+            { acc with mayContainStrings := true } :=
+          ⟨ha.den.congr (fun x _ => by simp [ES.CharSet.union, hB]),
+            fun str => by
+              rw [mem_union_strs, hBs, ha.srel]
+              simp only [List.mem_singleton]
+              constructor
+              · rintro (h | h)
+                · exact h
+                · subst h; simpa using hcon
+              · exact Or.inl,
+            ha.len1, ha.scalar, fun h => by cases h⟩
+        exact hassoc _ _ (classStringSet_den hic rest _ _ hstep hok.2) rfl
+      · simp only [hcon, Bool.not_false, if_true]
+        have hstep : VSDen (A.union (ES.maybeSimpleCaseFolding rer (ES.CharSet.ofString a)))
+            { acc with alts := acc.alts ++ [a], mayContainStrings := true } :=
+          ⟨ha.den.congr (fun x _ => by simp [ES.CharSet.union, hB]),
+            fun str => by rw [mem_union_strs, hBs, ha.srel]; simp,
+            fun str h => by
+              simp only [List.mem_append, List.mem_singleton] at h
+              rcases h with h | h
+              · exact ha.len1 str h
+              · subst h; exact hlen,
+            fun str h => by
+              simp only [List.mem_append, List.mem_singleton] at h
+              rcases h with h | h
+              · exact ha.scalar str h
+              · subst h; exact strOK_scalar hoka,
+            fun h => by cases h⟩
+        exact hassoc _ _ (classStringSet_den hic rest _ _ hstep hok.2) rfl
     cases a with
     | cons c t =>
      cases t with
      | nil =>
-      simp only [classStringSet] at hl
+      simp only [classStringSet]
       have hc : c ≤ 0x10FFFF := strOK_le hoka (by simp)
       have hstep : VSDen (A.union (ES.maybeSimpleCaseFolding rer (ES.CharSet.ofString [c])))
           { acc with cps := addOne acc.cps c } :=
@@ -285,93 +355,14 @@ theorem classStringSet_den {rer : ES.RER} (hic : rer.ignoreCase = false) (neg : 
           fun str => by
             rw [mem_union_strs, ← ha.srel]
             simp [msf_noicase hic, ES.CharSet.ofString, ES.CharSet.single],
-          ha.len1, ha.scalar⟩
-      obtain ⟨h1, h2⟩ := classStringSet_den hic neg rest _ set _ hstep hok.2 hl
-      exact ⟨hassoc _ _ h1 rfl, h2⟩
+          ha.len1, ha.scalar, ha.ns⟩
+      exact hassoc _ _ (classStringSet_den hic rest _ _ hstep hok.2) rfl
      | cons d r =>
-      simp only [classStringSet] at hl
-      cases neg with
-      | true => simp [synErr] at hl
-      | false =>
-        simp only [Bool.false_eq_true, if_false] at hl
-        have hB : ∀ x, (ES.maybeSimpleCaseFolding rer (ES.CharSet.ofString (c :: d :: r))).chars x = false := by
-          intro x; simp [msf_noicase hic, ES.CharSet.ofString]
-        have hBs : (ES.maybeSimpleCaseFolding rer (ES.CharSet.ofString (c :: d :: r))).strs = [c :: d :: r] := by
-          simp [msf_noicase hic, ES.CharSet.ofString]
-        by_cases hcon : acc.alts.contains (c :: d :: r) = true
-        · simp only [hcon, Bool.not_true, Bool.false_eq_true, if_false] at hl
-          have hstep : VSDen (A.union (ES.maybeSimpleCaseFolding rer (ES.CharSet.ofString (c :: d :: r)))) acc :=
-            ⟨ha.den.congr (fun x _ => by simp [ES.CharSet.union, hB]),
-              fun str => by
-                rw [mem_union_strs, hBs, ha.srel]
-                simp only [List.mem_singleton]
-                constructor
-                · rintro (h | h)
-                  · exact h
-                  · subst h; simpa using hcon
-                · exact Or.inl,
-              ha.len1, ha.scalar⟩
-          obtain ⟨h1, h2⟩ := classStringSet_den hic false rest _ set _ hstep hok.2 hl
-          exact ⟨hassoc _ _ h1 rfl, fun h => by cases h⟩
-        · simp only [hcon, Bool.not_false, if_true] at hl
-          have hstep : VSDen (A.union (ES.maybeSimpleCaseFolding rer (ES.CharSet.ofString (c :: d :: r))))
-              { acc with alts := acc.alts ++ [c :: d :: r] } :=
-            ⟨ha.den.congr (fun x _ => by simp [ES.CharSet.union, hB]),
-              fun str => by rw [mem_union_strs, hBs, ha.srel]; simp,
-              fun str h => by
-                simp only [List.mem_append, List.mem_singleton] at h
-                rcases h with h | h
-                · exact ha.len1 str h
-                · subst h; simp,
-              fun str h => by
-                simp only [List.mem_append, List.mem_singleton] at h
-                rcases h with h | h
-                · exact ha.scalar str h
-                · subst h; exact strOK_scalar hoka⟩
-          obtain ⟨h1, h2⟩ := classStringSet_den hic false rest _ set _ hstep hok.2 hl
-          exact ⟨hassoc _ _ h1 rfl, fun h => by cases h⟩
+      simp only [classStringSet]
+      exact hlong (by simp)
     | nil =>
-      simp only [classStringSet] at hl
-      cases neg with
-      | true => simp [synErr] at hl
-      | false =>
-        simp only [Bool.false_eq_true, if_false] at hl
-        have hB : ∀ x, (ES.maybeSimpleCaseFolding rer (ES.CharSet.ofString [])).chars x = false := by
-          intro x; simp [msf_noicase hic, ES.CharSet.ofString]
-        have hBs : (ES.maybeSimpleCaseFolding rer (ES.CharSet.ofString [])).strs = [[]] := by
-          simp [msf_noicase hic, ES.CharSet.ofString]
-        by_cases hcon : acc.alts.contains [] = true
-        · simp only [hcon, Bool.not_true, Bool.false_eq_true, if_false] at hl
-          have hstep : VSDen (A.union (ES.maybeSimpleCaseFolding rer (ES.CharSet.ofString []))) acc :=
-            ⟨ha.den.congr (fun x _ => by simp [ES.CharSet.union, hB]),
-              fun str => by
-                rw [mem_union_strs, hBs, ha.srel]
-                simp only [List.mem_singleton]
-                constructor
-                · rintro (h | h)
-                  · exact h
-                  · subst h; simpa using hcon
-                · exact Or.inl,
-              ha.len1, ha.scalar⟩
-          obtain ⟨h1, h2⟩ := classStringSet_den hic false rest _ set _ hstep hok.2 hl
-          exact ⟨hassoc _ _ h1 rfl, fun h => by cases h⟩
-        · simp only [hcon, Bool.not_false, if_true] at hl
-          have hstep : VSDen (A.union (ES.maybeSimpleCaseFolding rer (ES.CharSet.ofString [])))
-              { acc with alts := acc.alts ++ [[]] } :=
-            ⟨ha.den.congr (fun x _ => by simp [ES.CharSet.union, hB]),
-              fun str => by rw [mem_union_strs, hBs, ha.srel]; simp,
-              fun str h => by
-                simp only [List.mem_append, List.mem_singleton] at h
-                rcases h with h | h
-                · exact ha.len1 str h
-                · subst h; simp,
-              fun str h => by
-                simp only [List.mem_append, List.mem_singleton] at h
-                rcases h with h | h
-                · exact ha.scalar str h
-                · subst h; exact fun _ h => by cases h⟩
-          obtain ⟨h1, h2⟩ := classStringSet_den hic false rest _ set _ hstep hok.2 hl
-          exact ⟨hassoc _ _ h1 rfl, fun h => by cases h⟩
+      simp only [classStringSet]
+      exact hlong (by simp)
 
 
 /-! ## The recursion -/
@@ -380,8 +371,15 @@ section
 variable {rer : ES.RER} (hic : rer.ignoreCase = false) (fl : IR.Flags) (hfi : fl.icase = false)
 include hic hfi
 
+theorem vsden_strs_nil {A : ES.CharSet} {s : ClassSet} (h : VSDen A s) (ha : s.alts = []) : A.strs = [] := by
+  cases hs : A.strs with
+  | nil => rfl
+  | cons a t =>
+    have := (h.srel a).1 (by rw [hs]; simp)
+    rw [ha] at this; cases this
+
 theorem opSDen_nested {negateSet : Bool} {A : ES.CharSet} {result : ClassSet} (h : VSDen A result)
-    (hno : negateSet = true → result.alts = []) :
+    (hflag : ¬ (negateSet && result.mayContainStrings) = true) :
     OpSDen (if negateSet then ES.characterComplement rer A else A)
       (.cls (if negateSet then
           { result with cps := inverted (if fl.icase then Fold.addIcaseCodePoints result.cps else result.cps) }
@@ -389,39 +387,25 @@ theorem opSDen_nested {negateSet : Bool} {A : ES.CharSet} {result : ClassSet} (h
   cases negateSet with
   | false => simpa [OpSDen] using h
   | true =>
-    have ha := hno rfl
+    have ha : result.alts = [] := h.ns (by simpa using hflag)
     simp only [if_true, hfi, Bool.false_eq_true, if_false, OpSDen]
     exact ⟨(den_inverted h.den).congr (fun x _ => by simp [ES.characterComplement, ES.allCharacters, hic]),
       fun str => by simp [ES.characterComplement, ha],
-      fun str hs => by simp [ha] at hs, fun str hs => by simp [ha] at hs⟩
-
-theorem opSDen_strs {A : ES.CharSet} {op : Operand} (h : OpSDen A op) (hno : opNoStr op) : A.strs = [] := by
-  cases op with
-  | char _ => exact h.2.2
-  | esc _ => exact h.2
-  | cls s =>
-    simp only [opNoStr] at hno
-    cases hs : A.strs with
-    | nil => rfl
-    | cons a t =>
-      have := (h.srel a).1 (by rw [hs]; simp)
-      rw [hno] at this; cases this
-  | strs _ => exact h.elim
+      fun str hs => by simp [ha] at hs, fun str hs => by simp [ha] at hs, fun _ => ha⟩
 
 mutual
-theorem den_vOperand_s : ∀ (o : ES.VOp) (neg : Bool) (op : Operand), vopOKS fl.unicodeSets o = true →
-    lowerVOperand fl neg o = .ok op → OpSDen (ES.vOpCharSet rer o) op ∧ (neg = true → opNoStr op)
-  | .c cp, neg, op, hok, hl => by
+theorem den_vOperand_s : ∀ (o : ES.VOp) (op : Operand), vopOKS fl.unicodeSets o = true →
+    lowerVOperand fl o = .ok op → OpSDen (ES.vOpCharSet rer o) op
+  | .c cp, op, hok, hl => by
     simp only [lowerVOperand, Except.ok.injEq] at hl; subst hl
     simp only [vopOKS, decide_eq_true_eq] at hok
-    exact ⟨⟨hok, fun x => by simp [ES.vOpCharSet, msf_noicase hic, ES.CharSet.single],
-      by simp [ES.vOpCharSet, msf_noicase hic, ES.CharSet.single]⟩, fun _ => trivial⟩
-  | .r _ _, neg, op, hok, hl => by simp [lowerVOperand] at hl
-  | .esc e, neg, op, hok, hl => by
+    exact ⟨hok, fun x => by simp [ES.vOpCharSet, msf_noicase hic, ES.CharSet.single],
+      by simp [ES.vOpCharSet, msf_noicase hic, ES.CharSet.single]⟩
+  | .r _ _, op, hok, hl => by simp [lowerVOperand] at hl
+  | .esc e, op, hok, hl => by
     simp only [lowerVOperand, hfi, Except.ok.injEq] at hl; subst hl
-    exact ⟨⟨by simpa [ES.vOpCharSet] using den_classEscape hic e, by simp [ES.vOpCharSet, classEscape_strs hic]⟩,
-      fun _ => trivial⟩
-  | .prop pneg kind name, neg, op, hok, hl => by
+    exact ⟨by simpa [ES.vOpCharSet] using den_classEscape hic e, by simp [ES.vOpCharSet, classEscape_strs hic]⟩
+  | .prop pneg kind name, op, hok, hl => by
     simp only [lowerVOperand] at hl
     simp only [vopOKS, propIsCharClass] at hok
     cases hp : lowerProp fl.unicodeSets kind name with
@@ -435,120 +419,110 @@ theorem den_vOperand_s : ∀ (o : ES.VOp) (neg : Bool) (op : Operand), vopOKS fl
         cases pneg with
         | false =>
           simp only [Bool.false_eq_true, if_false, Except.ok.injEq] at hl; subst hl
-          exact ⟨⟨by simpa [ES.vOpCharSet] using hpos, by simp [ES.vOpCharSet, hstrs]⟩, fun _ => trivial⟩
+          exact ⟨by simpa [ES.vOpCharSet] using hpos, by simp [ES.vOpCharSet, hstrs]⟩
         | true =>
           simp only [if_true, hfi, Bool.false_eq_true, if_false, Except.ok.injEq] at hl; subst hl
-          exact ⟨⟨by simpa [ES.vOpCharSet] using hneg, by simp [ES.vOpCharSet, hstrs]⟩, fun _ => trivial⟩
-  | .q strs, neg, op, hok, hl => by
+          exact ⟨by simpa [ES.vOpCharSet] using hneg, by simp [ES.vOpCharSet, hstrs]⟩
+  | .q strs, op, hok, hl => by
     simp only [vopOKS] at hok
     simp only [lowerVOperand] at hl
     split at hl
     · cases hl
-    · cases hc : classStringSet neg strs {} with
-      | error e => rw [hc] at hl; cases hl
-      | ok set =>
-        rw [hc] at hl
-        simp only [Except.ok.injEq] at hl; subst hl
-        obtain ⟨h1, h2⟩ := classStringSet_den hic neg strs {} set ES.CharSet.empty vsden_empty hok hc
-        refine ⟨?_, fun hn => by simpa [opNoStr] using h2 hn⟩
-        simp only [OpSDen, ES.vOpCharSet]
-        exact ⟨h1.den.congr (fun x _ => by simp [ES.CharSet.union, ES.CharSet.empty]),
-          fun str => by rw [← h1.srel, mem_union_strs]; simp [ES.CharSet.empty], h1.len1, h1.scalar⟩
-  | .cls negateSet vop ops, neg, op, hok, hl => by
+    · simp only [Except.ok.injEq] at hl; subst hl
+      have h1 := classStringSet_den hic strs {} ES.CharSet.empty vsden_empty hok
+      simp only [OpSDen, ES.vOpCharSet]
+      exact ⟨h1.den.congr (fun x _ => by simp [ES.CharSet.union, ES.CharSet.empty]),
+        fun str => by rw [← h1.srel, mem_union_strs]; simp [ES.CharSet.empty], h1.len1, h1.scalar, h1.ns⟩
+  | .cls negateSet vop ops, op, hok, hl => by
     simp only [vopOKS] at hok
     simp only [lowerVOperand] at hl
-    have hnn : neg = true → (negateSet || neg) = true := fun h => by simp [h]
     cases vop with
     | union =>
       simp only at hl
-      cases hr : lowerVUnion fl (negateSet || neg) ops {} with
+      cases hr : lowerVUnion fl ops {} with
       | error e => rw [hr] at hl; cases hl
       | ok result =>
         rw [hr] at hl
+        simp only at hl
+        by_cases hflag : (negateSet && result.mayContainStrings) = true
+        · rw [if_pos hflag] at hl; cases hl
+        rw [if_neg hflag] at hl
         simp only [Except.ok.injEq] at hl; subst hl
-        obtain ⟨h0, hno⟩ := den_vUnion_s ops (negateSet || neg) {} result ES.CharSet.empty vsden_empty hok hr
+        have h0 := den_vUnion_s ops {} result ES.CharSet.empty vsden_empty hok hr
         have h1 : VSDen (ES.vUnion rer ops) result :=
           ⟨h0.den.congr (fun x _ => by simp [ES.CharSet.union, ES.CharSet.empty]),
-            fun str => by rw [← h0.srel, mem_union_strs]; simp [ES.CharSet.empty], h0.len1, h0.scalar⟩
-        simp only [ES.vOpCharSet]
-        refine ⟨opSDen_nested hic fl hfi h1 (fun hn => hno (by simp [hn]) rfl), fun hn => ?_⟩
-        have := hno (hnn hn) rfl
-        cases negateSet <;> simpa [opNoStr] using this
+            fun str => by rw [← h0.srel, mem_union_strs]; simp [ES.CharSet.empty], h0.len1, h0.scalar, h0.ns⟩
+        simp only [ES.vOpCharSet, absorb_id h1.len1]
+        exact opSDen_nested hic fl hfi h1 hflag
     | inter =>
       simp only at hl
-      cases hr : lowerVInterStart fl (negateSet || neg) ops with
+      cases hr : lowerVInterStart fl ops with
       | error e => rw [hr] at hl; cases hl
       | ok result =>
         rw [hr] at hl
+        simp only at hl
+        by_cases hflag : (negateSet && result.mayContainStrings) = true
+        · rw [if_pos hflag] at hl; cases hl
+        rw [if_neg hflag] at hl
         simp only [Except.ok.injEq] at hl; subst hl
-        obtain ⟨h1, hno⟩ := den_vInterStart_s ops _ result hok hr
-        simp only [ES.vOpCharSet]
-        refine ⟨opSDen_nested hic fl hfi h1 (fun hn => hno (by simp [hn])), fun hn => ?_⟩
-        have := hno (hnn hn)
-        cases negateSet <;> simpa [opNoStr] using this
+        have h1 := den_vInterStart_s ops result hok hr
+        simp only [ES.vOpCharSet, absorb_id h1.len1]
+        exact opSDen_nested hic fl hfi h1 hflag
     | sub =>
       simp only at hl
-      cases hr : lowerVSubStart fl (negateSet || neg) ops with
+      cases hr : lowerVSubStart fl ops with
       | error e => rw [hr] at hl; cases hl
       | ok result =>
         rw [hr] at hl
+        simp only at hl
+        by_cases hflag : (negateSet && result.mayContainStrings) = true
+        · rw [if_pos hflag] at hl; cases hl
+        rw [if_neg hflag] at hl
         simp only [Except.ok.injEq] at hl; subst hl
-        obtain ⟨h1, hno⟩ := den_vSubStart_s ops _ result hok hr
-        simp only [ES.vOpCharSet]
-        refine ⟨opSDen_nested hic fl hfi h1 (fun hn => hno (by simp [hn])), fun hn => ?_⟩
-        have := hno (hnn hn)
-        cases negateSet <;> simpa [opNoStr] using this
-theorem den_vInterStart_s : ∀ (ops : List ES.VOp) (neg : Bool) (result : ClassSet),
-    vopsOKS fl.unicodeSets ops = true → lowerVInterStart fl neg ops = .ok result →
-    VSDen (ES.vInter rer ops) result ∧ (neg = true → result.alts = [])
-  | [], neg, result, hok, hl => by simp [lowerVInterStart] at hl
-  | [_], neg, result, hok, hl => by simp [lowerVInterStart] at hl
-  | o :: o2 :: os, neg, result, hok, hl => by
+        have h1 := den_vSubStart_s ops result hok hr
+        simp only [ES.vOpCharSet, absorb_id h1.len1]
+        exact opSDen_nested hic fl hfi h1 hflag
+theorem den_vInterStart_s : ∀ (ops : List ES.VOp) (result : ClassSet),
+    vopsOKS fl.unicodeSets ops = true → lowerVInterStart fl ops = .ok result →
+    VSDen (ES.vInter rer ops) result
+  | [], result, hok, hl => by simp [lowerVInterStart] at hl
+  | [_], result, hok, hl => by simp [lowerVInterStart] at hl
+  | o :: o2 :: os, result, hok, hl => by
     simp only [vopsOKS, Bool.and_eq_true] at hok
     simp only [lowerVInterStart] at hl
-    cases hf : lowerVOperand fl neg o with
+    cases hf : lowerVOperand fl o with
     | error e => rw [hf] at hl; cases hl
     | ok first =>
       rw [hf] at hl
       simp only [hfi, closeClassSetOperand, Bool.not_false, if_true] at hl
-      obtain ⟨h1, hn1⟩ := den_vOperand_s o _ first hok.1 hf
+      have h1 := den_vOperand_s o first hok.1 hf
       simp only [ES.vInter]
-      obtain ⟨h2, hn2⟩ := den_vInter_s (o2 :: os) _ _ result _ (vsden_first h1) (by simp [vopsOKS, hok.2]) hl
-      refine ⟨h2, fun hn => hn2 ?_⟩
-      have := hn1 hn
-      cases first with
-      | strs _ => exact h1.elim
-      | _ => simp_all [ClassSet.unionOperand, opNoStr]
-theorem den_vSubStart_s : ∀ (ops : List ES.VOp) (neg : Bool) (result : ClassSet),
-    vopsOKS fl.unicodeSets ops = true → lowerVSubStart fl neg ops = .ok result →
-    VSDen (ES.vSub rer ops) result ∧ (neg = true → result.alts = [])
-  | [], neg, result, hok, hl => by simp [lowerVSubStart] at hl
-  | [_], neg, result, hok, hl => by simp [lowerVSubStart] at hl
-  | o :: o2 :: os, neg, result, hok, hl => by
+      exact den_vInter_s (o2 :: os) _ result _ (vsden_first h1) (by simp [vopsOKS, hok.2]) hl
+theorem den_vSubStart_s : ∀ (ops : List ES.VOp) (result : ClassSet),
+    vopsOKS fl.unicodeSets ops = true → lowerVSubStart fl ops = .ok result →
+    VSDen (ES.vSub rer ops) result
+  | [], result, hok, hl => by simp [lowerVSubStart] at hl
+  | [_], result, hok, hl => by simp [lowerVSubStart] at hl
+  | o :: o2 :: os, result, hok, hl => by
     simp only [vopsOKS, Bool.and_eq_true] at hok
     simp only [lowerVSubStart] at hl
-    cases hf : lowerVOperand fl neg o with
+    cases hf : lowerVOperand fl o with
     | error e => rw [hf] at hl; cases hl
     | ok first =>
       rw [hf] at hl
       simp only [hfi, closeClassSetOperand, Bool.not_false, if_true] at hl
-      obtain ⟨h1, hn1⟩ := den_vOperand_s o _ first hok.1 hf
+      have h1 := den_vOperand_s o first hok.1 hf
       simp only [ES.vSub]
-      obtain ⟨h2, hn2⟩ := den_vSub_s (o2 :: os) _ _ result _ (vsden_first h1) (by simp [vopsOKS, hok.2]) hl
-      refine ⟨h2, fun hn => hn2 ?_⟩
-      have := hn1 hn
-      cases first with
-      | strs _ => exact h1.elim
-      | _ => simp_all [ClassSet.unionOperand, opNoStr]
-theorem den_vUnion_s : ∀ (ops : List ES.VOp) (neg : Bool) (acc result : ClassSet) (A : ES.CharSet), VSDen A acc →
-    vopsOKS fl.unicodeSets ops = true → lowerVUnion fl neg ops acc = .ok result →
-    VSDen (A.union (ES.vUnion rer ops)) result ∧ (neg = true → acc.alts = [] → result.alts = [])
-  | [], neg, acc, result, A, ha, hok, hl => by
+      exact den_vSub_s (o2 :: os) _ result _ (vsden_first h1) (by simp [vopsOKS, hok.2]) hl
+theorem den_vUnion_s : ∀ (ops : List ES.VOp) (acc result : ClassSet) (A : ES.CharSet), VSDen A acc →
+    vopsOKS fl.unicodeSets ops = true → lowerVUnion fl ops acc = .ok result →
+    VSDen (A.union (ES.vUnion rer ops)) result
+  | [], acc, result, A, ha, hok, hl => by
     simp only [lowerVUnion, Except.ok.injEq] at hl; subst hl
-    exact ⟨⟨ha.den.congr (fun x _ => by simp [ES.CharSet.union, ES.vUnion, ES.CharSet.empty]),
-      fun str => by rw [mem_union_strs, ← ha.srel]; simp [ES.vUnion, ES.CharSet.empty], ha.len1, ha.scalar⟩,
-      fun _ h => h⟩
-  | o :: os, neg, acc, result, A, ha, hok, hl => by
+    exact ⟨ha.den.congr (fun x _ => by simp [ES.CharSet.union, ES.vUnion, ES.CharSet.empty]),
+      fun str => by rw [mem_union_strs, ← ha.srel]; simp [ES.vUnion, ES.CharSet.empty], ha.len1, ha.scalar,
+      ha.ns⟩
+  | o :: os, acc, result, A, ha, hok, hl => by
     simp only [vopsOKS, Bool.and_eq_true] at hok
     by_cases hr : ∃ lo hi, o = .r lo hi
     · obtain ⟨lo, hi, rfl⟩ := hr
@@ -561,63 +535,55 @@ theorem den_vUnion_s : ∀ (ops : List ES.VOp) (neg : Bool) (acc result : ClassS
           fun str => by
             rw [mem_union_strs, ← ha.srel]
             simp [ES.vOpCharSet, msf_noicase hic, ES.CharSet.range],
-          ha.len1, ha.scalar⟩
-      obtain ⟨h1, hn1⟩ := den_vUnion_s os neg _ result _ hstep hok.2 hl
+          ha.len1, ha.scalar, ha.ns⟩
+      have h1 := den_vUnion_s os _ result _ hstep hok.2 hl
       simp only [ES.vUnion]
-      exact ⟨vsden_assoc h1, hn1⟩
+      exact vsden_assoc h1
     · have hne : ∀ lo hi, o ≠ .r lo hi := fun lo hi h => hr ⟨lo, hi, h⟩
       rw [lowerVUnion_cons hne] at hl
-      cases hf : lowerVOperand fl neg o with
+      cases hf : lowerVOperand fl o with
       | error e => rw [hf] at hl; cases hl
       | ok x =>
         rw [hf] at hl
-        obtain ⟨h1, hnx⟩ := den_vOperand_s o neg x hok.1 hf
+        have h1 := den_vOperand_s o x hok.1 hf
         have hstep := vsden_unionOperand ha h1
-        obtain ⟨h2, hn2⟩ := den_vUnion_s os neg _ result _ hstep hok.2 hl
+        have h2 := den_vUnion_s os _ result _ hstep hok.2 hl
         simp only [ES.vUnion]
-        refine ⟨vsden_assoc h2, fun hn hacc => hn2 hn ?_⟩
-        have := hnx hn
-        cases x with
-        | strs _ => exact h1.elim
-        | _ => simp_all [ClassSet.unionOperand, opNoStr]
-theorem den_vInter_s : ∀ (ops : List ES.VOp) (neg : Bool) (acc result : ClassSet) (A : ES.CharSet), VSDen A acc →
-    vopsOKS fl.unicodeSets ops = true → lowerVInter fl neg ops acc = .ok result →
-    VSDen (ES.vInterFrom rer A ops) result ∧ (acc.alts = [] → result.alts = [])
-  | [], neg, acc, result, A, ha, hok, hl => by
+        exact vsden_assoc h2
+theorem den_vInter_s : ∀ (ops : List ES.VOp) (acc result : ClassSet) (A : ES.CharSet), VSDen A acc →
+    vopsOKS fl.unicodeSets ops = true → lowerVInter fl ops acc = .ok result →
+    VSDen (ES.vInterFrom rer A ops) result
+  | [], acc, result, A, ha, hok, hl => by
     simp only [lowerVInter, Except.ok.injEq] at hl; subst hl
-    exact ⟨by simpa [ES.vInterFrom] using ha, fun h => h⟩
-  | o :: os, neg, acc, result, A, ha, hok, hl => by
+    simpa [ES.vInterFrom] using ha
+  | o :: os, acc, result, A, ha, hok, hl => by
     simp only [vopsOKS, Bool.and_eq_true] at hok
     simp only [lowerVInter] at hl
-    cases hf : lowerVOperand fl neg o with
+    cases hf : lowerVOperand fl o with
     | error e => rw [hf] at hl; cases hl
     | ok x =>
       rw [hf] at hl
       simp only [hfi, closeClassSetOperand, Bool.not_false, if_true] at hl
-      obtain ⟨h1, _⟩ := den_vOperand_s o neg x hok.1 hf
+      have h1 := den_vOperand_s o x hok.1 hf
       simp only [ES.vInterFrom]
-      obtain ⟨h2, hn2⟩ := den_vInter_s os neg _ result _ (vsden_intersectOperand ha h1) hok.2 hl
-      refine ⟨h2, fun hacc => hn2 ?_⟩
-      cases x <;> simp [ClassSet.intersectOperand, hacc]
-theorem den_vSub_s : ∀ (ops : List ES.VOp) (neg : Bool) (acc result : ClassSet) (A : ES.CharSet), VSDen A acc →
-    vopsOKS fl.unicodeSets ops = true → lowerVSub fl neg ops acc = .ok result →
-    VSDen (ES.vSubFrom rer A ops) result ∧ (acc.alts = [] → result.alts = [])
-  | [], neg, acc, result, A, ha, hok, hl => by
+      exact den_vInter_s os _ result _ (vsden_intersectOperand ha h1) hok.2 hl
+theorem den_vSub_s : ∀ (ops : List ES.VOp) (acc result : ClassSet) (A : ES.CharSet), VSDen A acc →
+    vopsOKS fl.unicodeSets ops = true → lowerVSub fl ops acc = .ok result →
+    VSDen (ES.vSubFrom rer A ops) result
+  | [], acc, result, A, ha, hok, hl => by
     simp only [lowerVSub, Except.ok.injEq] at hl; subst hl
-    exact ⟨by simpa [ES.vSubFrom] using ha, fun h => h⟩
-  | o :: os, neg, acc, result, A, ha, hok, hl => by
+    simpa [ES.vSubFrom] using ha
+  | o :: os, acc, result, A, ha, hok, hl => by
     simp only [vopsOKS, Bool.and_eq_true] at hok
     simp only [lowerVSub] at hl
-    cases hf : lowerVOperand fl neg o with
+    cases hf : lowerVOperand fl o with
     | error e => rw [hf] at hl; cases hl
     | ok x =>
       rw [hf] at hl
       simp only [hfi, closeClassSetOperand, Bool.not_false, if_true] at hl
-      obtain ⟨h1, _⟩ := den_vOperand_s o neg x hok.1 hf
+      have h1 := den_vOperand_s o x hok.1 hf
       simp only [ES.vSubFrom]
-      obtain ⟨h2, hn2⟩ := den_vSub_s os neg _ result _ (vsden_subtractOperand ha h1) hok.2 hl
-      refine ⟨h2, fun hacc => hn2 ?_⟩
-      cases x <;> simp [ClassSet.subtractOperand, hacc]
+      exact den_vSub_s os _ result _ (vsden_subtractOperand ha h1) hok.2 hl
 end
 
 end
@@ -650,6 +616,7 @@ theorem classNode_node (s : ClassSet) (ic neg : Bool) : ClassNode (s.node ic neg
       | exact .strset _ _
       | exact .alt (.strset _ _) (.bracket _)
   simp only [ClassSet.node]
+  generalize s.absorbSingleCharacters = s'
   split
   · rw [makeAlt_two]; exact .alt (h0 _) .empty
   · exact h0 _
@@ -674,11 +641,11 @@ theorem lower_class_node_s {inp : Input} {cs : List Nat} (ht : Utf8Text inp cs) 
     · rename_i hus
       have hus' : rer.unicodeSets = true := by rw [hfl.unicodeSets]; simpa using hus
       simp only [lowerVClass] at hl
-      have fin : ∀ r, VSDen (ES.vExprCharSet rer op ops) r → (neg = true → r.alts = []) →
+      have fin : ∀ r, VSDen (ES.vExprCharSet rer op ops) r → ¬ (neg && r.mayContainStrings) = true →
           ir = r.node fl.icase neg →
           ∃ ir', Parse.reverseCats back ir = .ok ir' ∧
             NodeSim inp cs total pattern (.vcls neg op ops) rer pi back ir ir' := by
-        intro r hv hno hir
+        intro r hv hflag hir
         subst hir
         rw [hs.1]
         have hfacts := (classNode_node r false neg).facts back pi pi
@@ -691,13 +658,7 @@ theorem lower_class_node_s {inp : Input} {cs : List Nat} (ht : Utf8Text inp cs) 
           rw [hcc]
           exact sim_stringClass ht total rer hic hus' _ r hv.den hv.srel hv.len1 hv.scalar back _ _
         | true =>
-          have halts := hno rfl
-          have hstrs : (ES.vExprCharSet rer op ops).strs = [] := by
-            cases hs' : (ES.vExprCharSet rer op ops).strs with
-            | nil => rfl
-            | cons a t =>
-              have := (hv.srel a).1 (by rw [hs']; simp)
-              rw [halts] at this; cases this
+          have halts : r.alts = [] := hv.ns (by simpa using hflag)
           have hcc : ES.compileVCharacterClass rer true op ops =
               (ES.characterComplement rer (ES.vExprCharSet rer op ops), false) := by
             simp [ES.compileVCharacterClass, hus']
@@ -709,33 +670,43 @@ theorem lower_class_node_s {inp : Input} {cs : List Nat} (ht : Utf8Text inp cs) 
       cases op with
       | union =>
         simp only at hl
-        cases hr : lowerVUnion fl neg ops {} with
+        cases hr : lowerVUnion fl ops {} with
         | error e => rw [hr] at hl; cases hl
         | ok r =>
           rw [hr] at hl
+          simp only at hl
+          by_cases hflag : (neg && r.mayContainStrings) = true
+          · rw [if_pos hflag] at hl; cases hl
+          rw [if_neg hflag] at hl
           simp only [Except.ok.injEq] at hl
-          obtain ⟨h0, hno⟩ := den_vUnion_s hic fl hs.1 ops neg {} r ES.CharSet.empty vsden_empty hs.2 hr
+          have h0 := den_vUnion_s hic fl hs.1 ops {} r ES.CharSet.empty vsden_empty hs.2 hr
           exact fin r ⟨h0.den.congr (fun x _ => by simp [ES.vExprCharSet, ES.CharSet.union, ES.CharSet.empty]),
             fun str => by rw [← h0.srel, mem_union_strs]; simp [ES.vExprCharSet, ES.CharSet.empty],
-            h0.len1, h0.scalar⟩ (fun hn => hno hn rfl) hl.symm
+            h0.len1, h0.scalar, h0.ns⟩ hflag hl.symm
       | inter =>
         simp only at hl
-        cases hr : lowerVInterStart fl neg ops with
+        cases hr : lowerVInterStart fl ops with
         | error e => rw [hr] at hl; cases hl
         | ok r =>
           rw [hr] at hl
+          simp only at hl
+          by_cases hflag : (neg && r.mayContainStrings) = true
+          · rw [if_pos hflag] at hl; cases hl
+          rw [if_neg hflag] at hl
           simp only [Except.ok.injEq] at hl
-          obtain ⟨h0, hno⟩ := den_vInterStart_s hic fl hs.1 ops neg r hs.2 hr
-          exact fin r h0 hno hl.symm
+          exact fin r (den_vInterStart_s hic fl hs.1 ops r hs.2 hr) hflag hl.symm
       | sub =>
         simp only at hl
-        cases hr : lowerVSubStart fl neg ops with
+        cases hr : lowerVSubStart fl ops with
         | error e => rw [hr] at hl; cases hl
         | ok r =>
           rw [hr] at hl
+          simp only at hl
+          by_cases hflag : (neg && r.mayContainStrings) = true
+          · rw [if_pos hflag] at hl; cases hl
+          rw [if_neg hflag] at hl
           simp only [Except.ok.injEq] at hl
-          obtain ⟨h0, hno⟩ := den_vSubStart_s hic fl hs.1 ops neg r hs.2 hr
-          exact fin r h0 hno hl.symm
+          exact fin r (den_vSubStart_s hic fl hs.1 ops r hs.2 hr) hflag hl.symm
   | _ => simp [classSupportedS] at hs
 
 end Regress.Lower
